@@ -274,6 +274,8 @@ JOBS['C05'] = [
      'expect_reach': ['end'], 'timeout': {'quick': 280, 'thorough': 1700}, 'max_steps': 40000000, 'validate': {'quick': 2, 'thorough': 4}},
     {'name': 'ex_lines', 'harness': 'c05_ex.c', 'units': 'ALL', 'defs': {'quick': {'NB': 2, 'BUF': 2}, 'thorough': {'NB': 3, 'BUF': 2}},
      'expect_reach': ['end'], 'timeout': {'quick': 280, 'thorough': 1700}},
+    {'name': 'vi_prompt_history', 'harness': 'c05_hist.c', 'units': 'ALL', 'defs': {'quick': {}, 'thorough': {'LEN_LO': 50, 'LEN_HI': 70}}, 'expect_reach': ['end'], 'max_steps': 40000000,
+     'timeout': {'quick': 280, 'thorough': 1700}, 'validate': {'quick': 4, 'thorough': 8}},
     {'name': 'ex_pairs', 'harness': 'c05_ex.c', 'units': 'ALL', 'defs': {'MODE': 2, 'BUF': 1},
      'variants': [{'BUF': 0}, {'BUF': 2}], 'expect_reach': ['end'], 'timeout': {'quick': 280, 'thorough': 1700}},
     {'name': 'ex_limit', 'harness': 'c05_ex.c', 'units': 'ALL', 'defs': {'MODE': 1, 'BUF': 1},
